@@ -533,6 +533,35 @@ func sweepC06(tier string, shard, shards int, emit func(C06Case)) {
 			emit(C06Case{Src: s, Infix: infix, Mask: 0, Undef: false, Events: 1, Binds: []int{2}, NoDump: len(s) > 10000, Origin: "sweep"})
 		}
 	}
+	// the conversion operators with every kind of text and length / layout argument, as literals (folded at
+	// compile time with a nil context) and through variables; operators and calls tangled in infix notation
+	{
+		var conv []string
+		for _, op := range []string{"t_version", "version", "to_version"} {
+			for _, txt := range []string{`"7"`, `"1.2"`, `"1.2.3"`, `"1.2.3.4"`, `"1.2.3.4.5"`, `""`, `"x"`, `"1..2"`, `"10000"`, `"-1"`, "s0", "i0"} {
+				for _, ln := range []string{"", " 0", " 1", " 2", " 3", " 4", " 5", " -1", " i0", ` "3"`, " 9223372036854775807", " 3 4"} {
+					conv = append(conv, "("+op+" "+txt+ln+")")
+				}
+			}
+		}
+		for _, op := range []string{"date", "to_date", "datetime", "to_datetime", "t_date", "t_time", "td_date", "td_time"} {
+			for _, txt := range []string{`"2021-03-04"`, `"2021-03-04 05:06:07"`, `""`, `" 2021-03-04"`, `"0001-01-01"`, `"x"`, "s0", "i0"} {
+				for _, lay := range []string{"", ` ""`, ` "2006-01-02"`, ` "2006"`, ` "x"`, ` " 2006-01-02"`, " s0", " 5", ` "2006-01-02" "x"`} {
+					conv = append(conv, "("+op+" "+txt+lay+")")
+				}
+			}
+		}
+		for i, src := range conv {
+			emit(C06Case{Src: src, Mask: []int{15, 0, 1}[i%3], Undef: i%2 == 0, Events: i % 4, Binds: []int{1 + i%3}, Origin: "sweep-conversions"})
+		}
+		for i, src := range []string{
+			"1 2 add(+)", "1 2 add(+ 3 +)", "1 2 3 add(+) +", "add(+)", "add(1 +)", "add(+ 1)", "mod(* 2)", "1 add(+) 2", "a b c_id(!)", "x y add(-) z", "1 2 add(+) 3 4 add(*)",
+			"add(,)", "add(1,,2)", "add(1,)", "add(,1)", "if(,,)", "if(1,2,)", "[1 2] [3", "[[1]]", "1 [2] 3", "a b", "a (b)", "(a) (b)", "a !", "! a b", "a ! b", "f(a b)", "f(a)(b)", "f()()", "()", "(())", "a + ()", "f(())",
+		} {
+			emit(C06Case{Src: src, Infix: true, Mask: []int{15, 0, 5}[i%3], Undef: true, Events: i % 3, Binds: []int{1}, Origin: "sweep-tangled-infix"})
+			emit(C06Case{Src: src, Infix: true, Mask: 15, Undef: false, Binds: []int{2}, Origin: "sweep-tangled-infix"})
+		}
+	}
 	// directives in every leading comment line, over struct-literal configs (mask 15: no options map at all)
 	for _, src := range []string{
 		";; note\n;;;; optimize: false\n(and x y)", "; a\n; b\n;;;; reordering: false\n(or x (and y b0))", ";;;; constant_folding: false\n;; note\n;;;; fast_evaluation: false\n(+ 1 2 x)",
